@@ -185,7 +185,9 @@ def main(prop, tier='quick', replay=None, selftest=False, runs=None,
         finally:
             pass
     results.sort(key=lambda r: r['seed'])
-    harness += [r['harness'] for r in results if 'harness' in r]
+    harness += ['seed=%s tier=%s (./check %s --tier %s --show %s)\n%s'
+                % (r['seed'], tier, prop, tier, r['seed'], r['harness'])
+                for r in results if 'harness' in r]
     nondet = [r for r in results if 'nondet' in r]
     good = [r for r in results if 'harness' not in r]
 
@@ -257,7 +259,8 @@ def main(prop, tier='quick', replay=None, selftest=False, runs=None,
                    wall, stopped_early, nondet, harness)
     if harness or nondet:
         for h in harness[:3]:
-            print('HARNESS-FAULT: %s' % h[-1500:])
+            head, _, rest = h.partition('\n')
+            print('HARNESS-FAULT: %s\n%s' % (head, rest[-1500:]))
         for r in nondet[:3]:
             print('HARNESS-FAULT: nondeterministic digest seed=%s %s'
                   % (r['seed'], r['nondet']))
